@@ -7,6 +7,17 @@ props = [json.loads(l) for l in open(os.path.join(HERE, "properties.jsonl"))]
 MC = "model_checking"
 CHECKS = {
 
+ "C04": dict(
+   level=MC, design="DESIGN.md section 2, C04",
+   technique="stateless model checking with exhaustive crash-point enumeration: every byte offset of the peer->survivor stream as cut point (explorer choice) crossed with survivor schedules, on popen / socket / proxied IO classes",
+   text="3 base scenarios (bursts of items of sizes 0/5/40/300 on 1-2 channels, 1-2 blocked receivers, waitclose callers, a callback channel with endmarker, an in-flight remote_exec) on virtual popen, socket+installvia and popen+via: the worker process dies after exactly k bytes for EVERY k in 0..N (N = 195..416) on the default survivor schedule (+1 non-default pick at blocking points), and at all frame-boundary / in-header / in-payload offsets crossed with <=1 preemption (statement level for scenario A), read chunking deviations, and for sockets also with ECONNRESET instead of FIN. Oracle recomputed per execution from the bytes actually written: exactly the completely arrived frames are delivered in order, then EOFError for receive and waitclose (unless the channel was closed cleanly before), endmarker exactly once, no hang, afterwards send/remote_exec/newchannel raise OSError and hasreceiver() is False.",
+   note="A cut delivers exactly k bytes then EOF and the dying process closes all descriptors at that instant (kernel behaviour, modelled). Real SIGKILL conformance for sockets: findings/c04_socket_waitclose_real.py."),
+ "C11": dict(
+   level=MC, design="DESIGN.md section 2, C11",
+   technique="stateless model checking on a virtual clock: every byte offset of the initiator->worker stream as the initiator's death point x worker activities x exec models x schedules; the 5 s / 10 s escalation ladder runs in virtual time",
+   text="10 worker activities (idle, blocked in receive, sleeping loop, yielding busy loop, KeyboardInterrupt-swallowing loop, extra daemon thread, sending, receiving, a second body in a non-main thread, EOFError-swallowing receive loop) x {thread, main_thread_only, gevent-backend} x initiator death at every byte offset of its stream (bootstrap line sampled at its ends and 3 interior points in quick) + close_write only + death while idle, crossed with <=1 preemption on a subset of offsets. Oracle: the worker process has ended within 15.1 virtual seconds; all three rungs (pool shutdown, SIGINT, os._exit) must be observed (vacuity guard).",
+   note="Signal delivery, process exit and fd closing are modelled (CPython/POSIX semantics), discrete-event time. Non-daemon user threads and uninterruptible C calls are outside the property."),
+
  "C14": dict(
    level=MC, design="DESIGN.md section 2, C14",
    technique="stateless model checking: all remote_exec outcome histories (bounded length) on a main_thread_only worker, exhaustive interleavings of receiver and main thread within bounds",
